@@ -191,8 +191,9 @@ Qed.
 Lemma do_fim_ok e m k1 k2 : maps_ok (mappings e) -> exists r, do_find_in_map e (VStr m) (VStr k1) (VStr k2) = Ok r.
 Proof.
   intros H. unfold do_find_in_map. destruct (lookup m (mappings e)) as [top|] eqn:L; [|eauto].
-  destruct (H m top L) as (t & -> & Ht). destruct (lookup k1 t) as [snd_|] eqn:L1; [|eauto].
-  destruct (Ht k1 snd_ L1) as (s & ->). destruct (lookup k2 s) as [leaf|]; [|eauto]. destruct leaf; eauto.
+  destruct (H m top L) as (t & -> & Ht). destruct (lookup_bk k1 t) as [snd_|] eqn:L1; [|eauto].
+  destruct (lookup_bk_lookup k1 t snd_ L1) as (k1' & L1' & _).
+  destruct (Ht k1' snd_ L1') as (s & ->). destruct (lookup_bk k2 s) as [leaf|]; [|eauto]. destruct leaf; eauto.
 Qed.
 Lemma leaf_ty_shape leaf : shape (leaf_ty leaf) leaf = true.
 Proof.
@@ -204,8 +205,9 @@ Lemma do_fim_static e m k1 k2 : maps_ok (mappings e) ->
   exists r, do_find_in_map e (VStr m) (VStr k1) (VStr k2) = Ok r /\ shape (fim_static (mappings e) m k1 k2) r = true.
 Proof.
   intros H. unfold do_find_in_map, fim_static. destruct (lookup m (mappings e)) as [top|] eqn:L; [|eexists; split; reflexivity].
-  destruct (H m top L) as (t & -> & Ht). destruct (lookup k1 t) as [snd_|] eqn:L1; [|eexists; split; reflexivity].
-  destruct (Ht k1 snd_ L1) as (s & ->). destruct (lookup k2 s) as [leaf|]; [|eexists; split; reflexivity].
+  destruct (H m top L) as (t & -> & Ht). destruct (lookup_bk k1 t) as [snd_|] eqn:L1; [|eexists; split; reflexivity].
+  destruct (lookup_bk_lookup k1 t snd_ L1) as (k1' & L1' & _).
+  destruct (Ht k1' snd_ L1') as (s & ->). destruct (lookup_bk k2 s) as [leaf|]; [|eexists; split; reflexivity].
   destruct leaf; try (eexists; split; [reflexivity | apply leaf_ty_shape]). eexists; split; reflexivity.
 Qed.
 
